@@ -132,6 +132,11 @@ def scu_case(value):
             if t == 5:
                 return [fd.incoming_pdu({'t': 6, 'r1': 0, 'r2': 0})]
             return []
+        if rec['fields'].get(0x0100) == 0x0030:
+            state['echo_seen_before_find'] = 'rqs' not in state
+            f = {0x0002: rec['fields'].get(0x0002), 0x0100: 0x8030, 0x0120: rec['fields'].get(0x0110), 0x0900: 0}
+            pc0 = rec['pc_ids'][0]
+            return [lambda: fd.incoming_msg(dul, f, None, pc0)]
         if rec['fields'].get(0x0100) == 0x0020:
             state.setdefault('rqs', []).append(rec)
             state['rq'] = state['rqs'][0]
@@ -157,8 +162,17 @@ def scu_case(value):
                 ae = applicationentity.ClientAE('CLI', [ts])
                 ae.timeout = 0.01
                 ae.add_scu(getattr(sopclass, service_name), [sop])
+                early = msg_id % 3 == 1
+                if early:
+                    ae.add_scu(sopclass.verification_scu)
                 with ae.request_association(remote) as assoc:
-                    for ds, status in assoc.get_scu(sop)(to_ds(query), msg_id):
+                    results = assoc.get_scu(sop)(to_ds(query), msg_id)
+                    if early:
+                        # the query is prepared, another operation is carried out on the association, and only then
+                        # are the results iterated (one outstanding operation at a time, as DICOM requires)
+                        st0 = assoc.get_scu(svc.VERIFICATION)(9)
+                        state['echo_status'] = int(st0)
+                    for ds, status in results:
                         got.append((ds, int(status), status))
                     if matches and msg_id % 2 == 0 and got and got[0][0] is not None:
                         # drill down: a match that was received is edited in place and sent as the next query
@@ -180,6 +194,9 @@ def scu_case(value):
     rq_ts = str(dul.accepted_contexts[rq['pc_ids'][0]].supported_ts)
     if not svc.wire_ds_equal(rq['data'] or b'', rq_ts, to_ds(query)) or rq['fields'].get(0x0002) != sop:
         raise Violation('%s:scu:query' % PROP, 'identifier / SOP class of the C-FIND-RQ differ from what the caller gave', case)
+    if 'echo_status' in state and state['echo_status'] != 0:
+        raise Violation('%s:scu:interleaved-echo' % PROP, 'a C-ECHO carried out between preparing a query and iterating its '
+                        'results returned status %04XH (the peer answered it with success)' % state['echo_status'], case)
     rounds = 1
     if 'requery' in state:
         rounds = 2
@@ -209,7 +226,7 @@ def scu_case(value):
         if i < len(matches) and not sobj.is_pending:
             raise Violation('%s:scu:pending-class' % PROP, 'item %d: status %04XH not classified pending' % (i + 1, st_), case)
     # receive() calls: A-ASSOCIATE-AC, one per response, A-RELEASE-RP - and not one more
-    if dul.receive_calls != rounds * (len(matches) + 1) + 2 or dul.timeouts:
+    if dul.receive_calls != rounds * (len(matches) + 1) + 2 + (1 if 'echo_status' in state else 0) or dul.timeouts:
         raise Violation('%s:scu:read-past-final' % PROP, 'the user side called receive() %d times (%d timed out) for %d '
                         'responses' % (dul.receive_calls, dul.timeouts, len(matches) + 1), case)
 
@@ -264,7 +281,7 @@ def run(ctx):
                 '(odd-length values, long descriptions), 3 transfer syntaxes, maximum PDU lengths down to 32 bytes; '
                 'provider side through qr_find_scp / modality_work_list_scp (wire read by the reference codecs), user '
                 'side through qr_find_scu / modality_work_list_scu / the c_find() wrapper against a scripted peer with '
-                'final status success/failure/cancel, counting every receive() call; provider handler failing after k matches; provider handler filling in and yielding the query object itself; the caller editing a received match and sending it as the next query; '
+                'final status success/failure/cancel, counting every receive() call; provider handler failing after k matches; provider handler filling in and yielding the query object itself; the caller editing a received match and sending it as the next query; a query prepared, a C-ECHO carried out, and only then the results iterated; '
                 'non-trivial = >=2 matches, mixed pending codes or a multi-fragment response')
     ctx.assumptions = ['matches carry only pending statuses (a non-pending status supplied by the handler is outside the statement)',
                        'loopback composition of both sides is exercised by C20/C15 style checks, not here']
